@@ -179,6 +179,8 @@ class Env:
 
         self.declined = set(declined)
         self.replay_calls = []
+        self.app_msgs = []
+        self.state_changes = []
         env = self
 
         class Server(AsyncFIXDummyServer):
@@ -186,6 +188,15 @@ class Env:
                 n = int(historical_replay_msg[FTag.MsgSeqNum])
                 env.replay_calls.append(n)
                 return n not in env.declined
+
+            async def on_connect(self):
+                pass
+
+            async def on_message(self, msg):
+                env.app_msgs.append(msg)
+
+            async def on_state_change(self, connection_state):
+                env.state_changes.append(int(connection_state))
 
         class PeerCodec(Codec):
             @staticmethod
@@ -232,8 +243,7 @@ class Env:
         out = []
         for seq, raw, direction, sid in self.journaler.get_all_msgs(direction=__import__("asyncfix").message.MessageDirection.OUTBOUND):
             out.append(row_of_frame(raw, seq))
-        out.sort(key=lambda r: r[0])
-        return out
+        return out                      # rowid order
 
     def inbound_keys(self):
         from asyncfix.message import MessageDirection
@@ -322,6 +332,7 @@ async def build(env, slots, state):
         n += 1
     env.writer.frames.clear()
     env.replay_calls.clear()
+    env.state_changes.clear()
     env.catcher.classes.clear()
     return n
 
@@ -359,10 +370,380 @@ async def run_case_async(case):
             wire.append(row_of_frame(fr) + [1 if ok else 0])
         swallowed = env.catcher.classes[:]
         return {"pre": pre, "post": post, "wire": wire, "calls": env.replay_calls[:],
-                "swallowed": swallowed, "escaped": escaped, "declined": declined_of(case["slots"])}
+                "swallowed": swallowed, "escaped": escaped, "states": env.state_changes[:], "declined": declined_of(case["slots"])}
     finally:
         env.close()
 
 
 def run_case(case, timeout=20):
     return asyncio.run(asyncio.wait_for(run_case_async(case), timeout))
+
+
+# =========================================================================================
+# Model request / projections
+# =========================================================================================
+
+def by_seq(rows):
+    return sorted(rows, key=lambda r: r[0])
+
+
+def sx_rows(rows):
+    return "[" + ",".join("[%d,%s,%s,[%s]]" % (r[0], sx(r[1]), sx(r[2]), ",".join("[%s,%s]" % (sx(t), sx(v)) for t, v in r[3]))
+                          for r in rows) + "]"
+
+
+def sx_optstr(v):
+    return "[]" if v is None else "[%s]" % sx(v)
+
+
+def model_request(case, obs):
+    pre = obs["pre"]
+    return "[%d,0,0,%d,%d,%d,%s,%s,%s,%s]" % (
+        pre["state"], pre["nout"], pre["sout"], pre["clock"], sx_rows(pre["rows"]),
+        sx_optstr(case["begin"]), sx_optstr(case["end"]), sx(obs["declined"]))
+
+
+def txt(v):
+    return "".join(chr(c) for c in v)
+
+
+def unsx_rows(v):
+    return [[r[0], txt(r[1]), txt(r[2]), [[txt(t), txt(x)] for t, x in r[3]]] for r in v]
+
+
+def model_projection(res):
+    if not (isinstance(res, list) and len(res) == 9):
+        return {"model_error": res}
+    return {"exc": res[0], "state": res[1], "nout": res[2], "sout": res[3], "clock": res[4],
+            "rows": by_seq(unsx_rows(res[5])), "wire": unsx_rows(res[6]), "calls": res[7], "states": res[8]}
+
+
+def impl_projection(obs):
+    post = obs["post"]
+    sw = obs["swallowed"]
+    exc = 0 if not sw else (EXC_CODES.get(sw[0], [99, sw[0]]) if len(sw) == 1 else [98, sw])
+    return {"exc": exc, "state": post["state"], "nout": post["nout"], "sout": post["sout"], "clock": post["clock"],
+            "rows": by_seq(post["rows"]), "wire": [w[:4] for w in obs["wire"]], "calls": obs["calls"],
+            "states": obs["states"]}
+
+
+# =========================================================================================
+# Property oracle (independent of the model: written from the property text)
+# =========================================================================================
+
+def req_int(v):
+    if v is None:
+        return None
+    try:
+        return int(v)
+    except ValueError:
+        return None
+
+
+def reference_reply(pre, b, e, declined):
+    """Expected chain for ResendRequest(b, e) over the pre-state journal, as
+    ('R', n) retransmission of number n | ('G', first, new_seq_no)."""
+    last = pre["nout"] - 1
+    if b is None or e is None or b < 1 or (e != 0 and e < b):
+        return [], None           # invalid request: nothing is retransmitted
+    hi = last if e == 0 else min(e, last)
+    J = {r[0]: r for r in pre["rows"]}
+    out, gap = [], None
+    for n in range(b, hi + 1):
+        r = J.get(n)
+        if r is not None and r[1] not in SESSION_TYPES and n not in declined:
+            if gap is not None:
+                out.append(("G", gap, n))
+                gap = None
+            out.append(("R", n))
+        elif gap is None:
+            gap = n
+    if gap is not None:
+        out.append(("G", gap, hi + 1))
+    return out, (b, hi)
+
+
+def check_property(case, obs):
+    """List of breaches of the property text by the observed behaviour (empty: property holds)."""
+    pre, post = obs["pre"], obs["post"]
+    bad = []
+    b, e = req_int(case["begin"]), req_int(case["end"])
+    want, rng = reference_reply(pre, b, e, set(obs["declined"]))
+    J = {r[0]: r for r in pre["rows"]}
+    got = obs["wire"]
+    if obs["escaped"]:
+        bad.append("exception %s escaped the dispatcher" % obs["escaped"])
+    # ---- the reply
+    if len(got) != len(want):
+        bad.append("reply has %d frame(s) %s, expected %d %s" % (
+            len(got), [(w[1], w[0], dict(map(tuple, w[3])).get("36")) for w in got], len(want), want))
+    else:
+        for w, x in zip(got, want):
+            f = dict(map(tuple, w[3]))
+            if not w[4]:
+                bad.append("frame %d does not decode" % w[0])
+            if x[0] == "R":
+                orig = J[x[1]]
+                orig_f = dict(map(tuple, orig[3]))
+                orig_time = orig_f.get("122", orig[2])
+                body = [p for p in w[3] if p[0] not in ("43", "122")]
+                orig_body = [p for p in orig[3] if p[0] not in ("43", "122")]
+                if w[0] != x[1] or w[1] != orig[1] or f.get("43") != "Y" or f.get("122") != orig_time or body != orig_body:
+                    bad.append("frame for %d is not the retransmission of the journaled message: %r" % (x[1], w[:4]))
+                if w[1] in SESSION_TYPES:
+                    bad.append("session-level message %d retransmitted" % w[0])
+            else:
+                if w[1] != "4" or w[0] != x[1] or f.get("123") != "Y" or f.get("36") != str(x[2]):
+                    bad.append("expected GapFill(%d -> %d), got %r" % (x[1], x[2], w[:4]))
+    # ---- no side effects
+    if post["nout"] != pre["nout"]:
+        bad.append("next outbound number %d -> %d" % (pre["nout"], post["nout"]))
+    if post["sout"] != pre["sout"]:
+        bad.append("stored outbound counter %d -> %d" % (pre["sout"], post["sout"]))
+    if post["state"] != pre["state"]:
+        bad.append("connection state %d -> %d" % (pre["state"], post["state"]))
+    P = {r[0]: r for r in post["rows"]}
+    outside = [n for n in sorted(set(J) | set(P)) if rng is None or not (rng[0] <= n <= rng[1])]
+    changed = [n for n in outside if J.get(n) != P.get(n)]
+    if changed:
+        bad.append("journaled messages outside the range changed: %s" % [(n, "deleted" if n not in P else "rewritten") for n in changed])
+    # inbound side: only the request itself may have been counted
+    counted = pre["state"] == ST["ACTIVE"]
+    if post["nin"] != pre["nin"] + (1 if counted else 0) or post["sin"] != (pre["nin"] if counted else pre["sin"]) \
+            or post["inbound"] != pre["inbound"] + ([pre["nin"]] if counted else []):
+        bad.append("inbound side changed: nin %d->%d stored %d->%d rows %s->%s" % (
+            pre["nin"], post["nin"], pre["sin"], post["sin"], pre["inbound"], post["inbound"]))
+    return bad
+
+
+# ---- known-finding class predicates: decidable from the request, the filter and the pre-state journal
+
+def classify(case, obs):
+    """Names of the known-finding classes whose predicate accepts this case, most specific first."""
+    pre = obs["pre"]
+    b, e = req_int(case["begin"]), req_int(case["end"])
+    nout = pre["nout"]
+    out = []
+    if b is None or e is None or not (-2 ** 63 <= b <= INT64_MAX) or not (-2 ** 63 <= e <= INT64_MAX):
+        return ["C06-request-unparsable"] if pre["state"] != ST["AWAITING"] else []
+    if b <= 0:
+        return ["C06-begin-nonpositive"] if pre["state"] != ST["AWAITING"] else []
+    if b > nout:
+        return ["C06-begin-beyond"]
+    hi = INT64_MAX if e == 0 else e
+    declined = set(obs["declined"])
+    keys = {r[0] for r in pre["rows"]}
+    replayed = [r for r in pre["rows"] if b <= r[0] <= hi and r[1] not in SESSION_TYPES and r[0] not in declined]
+    if e != 0 and e < nout - 1 and b < nout:
+        out.append("C06-bounded-end")
+    if any(t in ("43", "122") for r in replayed for t, _ in r[3]):
+        out.append("C06-leftover-copy-in-range")
+    if any(r[0] > b and (r[0] - 1) not in keys for r in replayed):
+        out.append("C06-hole-before-replayed")
+    return out
+
+
+def in_theorem_domain(case, obs):
+    """Hypotheses of C06_reply_chain_partial: the complement of the classes (for the two start states)."""
+    pre = obs["pre"]
+    b, e = req_int(case["begin"]), req_int(case["end"])
+    if b is None or e is None:
+        return False
+    return 1 <= b <= pre["nout"] and -2 ** 63 <= e <= INT64_MAX and not classify(case, obs)
+
+
+# =========================================================================================
+# Generators
+# =========================================================================================
+
+def slot_alphabet(first=False):
+    if first:
+        return ["A", "Al", "Ah"]
+    out = []
+    for t in APP_TYPES:
+        out += [t, t + "d", t + "l", t + "h", t + "dl"]
+    for t in SESSION_TYPES:
+        out += [t, t + "l", t + "h"]
+    return out
+
+
+def requests_for(n_out):
+    """all (Begin, End) in [-1, len+2]^2; n_out = outbound numbers used (next_num_out - 1)."""
+    vals = [str(v) for v in range(-1, n_out + 3)]
+    return [(b, e) for b in vals for e in vals]
+
+
+def cases_for_journal(slots):
+    out = []
+    for state in ("ACTIVE", "AWAITING"):
+        n = len(slots) + (1 if state == "AWAITING" else 0)
+        for b, e in requests_for(n):
+            out.append({"slots": slots, "begin": b, "end": e, "state": state})
+    return out
+
+
+def random_journal(rng, n):
+    alpha = slot_alphabet()
+    weights = [(4 if len(a) == 1 and a in APP_TYPES else 2 if len(a) == 1 else 1) for a in alpha]
+    return [rng.choice(slot_alphabet(True)) if k == 0 and rng.random() < 0.3 else ("A" if k == 0 else rng.choices(alpha, weights)[0])
+            for k in range(n)]
+
+
+SHOWCASE = [
+    ["A", "D", "0", "J", "8d", "1", "2", "4", "5", "D"],          # every message type once
+    ["A", "D", "0", "0", "8"],                                     # pristine
+    ["A", "Dl", "0l", "0l", "8"],                                  # second request over a replayed range
+    ["A", "D", "Dh", "D", "D"],                                    # hole between application rows (D21)
+    ["A", "D", "D", "D", "Dh", "Dh"],                              # missing suffix
+    ["A", "0l", "0l", "D"],                                        # gap fill left behind, then an application message
+]
+
+MALFORMED_VALUES = [None, "", "x", "1x", " 2", "+2", "2_0", "0x2", "2.0", "-", "9223372036854775807", "9223372036854775808",
+                    "-9223372036854775809", "00002", "\xb2", "2 "]
+
+
+def malformed_cases(rng, n):
+    out = []
+    js = [["A", "D", "0", "8"], ["A", "D", "J"], ["A"]]
+    for _ in range(n):
+        slots = rng.choice(js)
+        b = rng.choice(MALFORMED_VALUES + ["1", "2"])
+        e = rng.choice(MALFORMED_VALUES + ["0", "3"])
+        out.append({"slots": slots, "begin": b, "end": e, "state": rng.choice(["ACTIVE", "AWAITING"])})
+    return out
+
+
+def generate(ctx):
+    cases = []
+    for j in SHOWCASE:
+        cases += cases_for_journal(j)
+    # exhaustive: every journal of length <= 2 over the slot alphabet
+    for first in slot_alphabet(True):
+        cases += cases_for_journal([first])
+        for second in slot_alphabet():
+            cases += cases_for_journal([first, second])
+    maxlen = ctx.scale(8, 12)
+    for _ in range(ctx.scale(14, 120)):
+        cases += cases_for_journal(random_journal(ctx.rng, ctx.rng.randrange(3, maxlen + 1)))
+    cases += malformed_cases(ctx.rng, ctx.scale(300, 3000))
+    return cases
+
+
+# =========================================================================================
+# Running
+# =========================================================================================
+
+def _worker(chunk):
+    faulthandler.dump_traceback_later(120, exit=True)
+    logging.getLogger().addHandler(logging.NullHandler())   # the library logs decode problems on the root logger
+    out = []
+    for case in chunk:
+        try:
+            out.append(run_case(case))
+        except Exception as e:      # a harness-side problem: reported as a broken case, never hidden
+            out.append({"harness_error": "%s: %s" % (type(e).__name__, e)})
+    faulthandler.cancel_dump_traceback_later()
+    return out
+
+
+def run_impl(cases, procs=8):
+    """Run the implementation on all cases, in parallel worker processes, each under a watchdog."""
+    if len(cases) < 64:
+        return _worker(cases)
+    import multiprocessing as mp
+    size = 128
+    chunks = [cases[i:i + size] for i in range(0, len(cases), size)]
+    with mp.get_context("fork").Pool(procs) as pool:
+        res = pool.map_async(_worker, chunks).get(timeout=900)
+    return [o for r in res for o in r]
+
+
+def canon(case):
+    return (tuple(case["slots"]), case["begin"], case["end"], case["state"])
+
+
+def evaluate(ctx, cases, use_model=True):
+    t0 = time.time()
+    obs = run_impl(cases)
+    t1 = time.time()
+    model_out = [None] * len(cases)
+    good = [i for i, o in enumerate(obs) if "harness_error" not in o]
+    if use_model and ctx.model:
+        res = ctx.model.batch([model_request(cases[i], obs[i]) for i in good])
+        for i, r in zip(good, res):
+            model_out[i] = r
+    t2 = time.time()
+    ctx.extra.setdefault("timing_s", {"implementation": 0.0, "model": 0.0})
+    ctx.extra["timing_s"]["implementation"] += round(t1 - t0, 2)
+    ctx.extra["timing_s"]["model"] += round(t2 - t1, 2)
+    for case, o, m in zip(cases, obs, model_out):
+        if "harness_error" in o:
+            ctx.disagree(case, o, None, "harness-could-not-build-case")
+            continue
+        b = req_int(case["begin"])
+        nontriv = b is not None and req_int(case["end"]) is not None and 1 <= b < o["pre"]["nout"]
+        ip = impl_projection(o)
+        ctx.case(canon(case), nontriv,
+                 sample={"case": case, "reply": [(w[1], w[0]) for w in o["wire"]], "state_after": o["post"]["state"],
+                         "nout_after": o["post"]["nout"]} if (nontriv and len(ctx.samples) < 6 and len(case["slots"]) > 3 and ctx.rng.random() < 0.02) else None)
+        ctx.traces += 1
+        cls = classify(case, o)
+        ctx.count("state=" + case["state"])
+        ctx.count("len=%d" % len(case["slots"]))
+        ctx.count("class=" + (cls[0] if cls else ("theorem-domain" if in_theorem_domain(case, o) else "invalid-harmless")))
+        for s in case["slots"]:
+            ctx.count("slot=" + s)
+        if m is not None:
+            mp_ = model_projection(m)
+            if mp_ != ip:
+                keys = [k for k in ip if mp_.get(k) != ip[k]] if "model_error" not in mp_ else ["model_error"]
+                ctx.disagree(case, {k: ip[k] for k in keys}, {k: mp_.get(k) for k in keys}, "resend:" + ",".join(keys))
+        bad = check_property(case, o)
+        if bad:
+            ctx.fail(case, "; ".join(bad), cls[0] if cls else None)
+        elif in_theorem_domain(case, o):
+            ctx.count("theorem-domain-ok")
+
+
+def run(ctx):
+    cases = generate(ctx)
+    evaluate(ctx, cases)
+
+
+def search(ctx, cases):
+    """A proof or the correspondence broke: look for an input on which the implementation itself breaks the property
+    outside the known classes (the oracle runs on the disagreeing cases, their neighbours and a fresh generator run)."""
+    import random
+    rng = random.Random(ctx.seed + 1)
+    todo = []
+    for c in cases:
+        if isinstance(c, dict) and "slots" in c:
+            todo.append(c)
+            todo += [dict(c, begin=str(v), end="0") for v in range(1, len(c["slots"]) + 2)]
+    for _ in range(ctx.scale(10, 60)):
+        todo += cases_for_journal(random_journal(rng, rng.randrange(2, 9)))
+    evaluate(ctx, todo, use_model=False)
+
+
+def replay(path):
+    rec = json.load(open(path))
+    case = rec.get("input")
+    if not case:
+        print("replay: no concrete input; broken:", rec.get("broken"))
+        return 1
+    o = run_case(case)
+    print("case:", json.dumps(case))
+    print("pre-state: state=%d next_num_out=%d stored=%d" % (o["pre"]["state"], o["pre"]["nout"], o["pre"]["sout"]))
+    for r in o["pre"]["rows"]:
+        print("   journal", r)
+    for w in o["wire"]:
+        print("   reply  ", w[:4])
+    print("post-state: state=%d next_num_out=%d stored=%d swallowed=%s" % (
+        o["post"]["state"], o["post"]["nout"], o["post"]["sout"], o["swallowed"]))
+    for r in o["post"]["rows"]:
+        print("   journal", r)
+    bad = check_property(case, o)
+    print("classes:", classify(case, o))
+    for x in bad:
+        print("BREACH:", x)
+    return 1 if bad else 0
